@@ -118,8 +118,22 @@ class Env(object):
         self.ncond = {}
         self.log = None
         self.cnt = None
+        self.nnps = None
+        self.narrays = 0
+        self.ndisturb = 0
+
+    def disturb(self):
+        # a user callable may use the shared NNPS for its own queries
+        nn = self.nnps
+        if nn is not None and self.narrays:
+            self.ndisturb += 1
+            a = self.ndisturb % self.narrays
+            b = (self.ndisturb // self.narrays) % self.narrays
+            nn.set_context(a, b)
 
     def event(self, gid, code):
+        if gid >= 0:
+            self.disturb()
         k = int(self.cnt[0])
         self.log[W * k:W * k + W] = [gid, code, -1, -1, -1]
         self.cnt[0] += 1
@@ -190,6 +204,8 @@ def build(prog, arrays, mod, env):
             kw['post'] = env.mk_post(g['gid'])
         if g['hascond']:
             kw['condition'] = env.mk_cond(g['gid'])
+        if g.get('name'):
+            kw['name'] = g['name']
         if g['sub']:
             eqs = [mk_group(sg, False) for sg in g['sub']]
         else:
@@ -252,6 +268,8 @@ def run_program(p, workdir):
             co.script = np.asarray(r['env']['conv'][str(eid)], dtype=float)
         nn = make_nnps(pas, env)
         ae.set_nnps(nn)
+        env.nnps = nn
+        env.narrays = len(pas)
         nn.armed = True
         ae.compute(0.0, 0.125)
         nn.armed = False
